@@ -72,12 +72,25 @@ func (context *Context) IsArrayOfKinds(def ast.Type, kinds ...ast.Kind) bool {
 		return false
 	}
 
-	valueType := context.ResolveRefs(def.AsArray().ValueType)
-	if valueType.IsArray() {
-		return context.IsArrayOfKinds(valueType, kinds...)
-	}
+	// references already followed: types can be recursive (`A: [...A]`)
+	visited := make(map[string]struct{})
 
-	return valueType.IsAnyOf(kinds...)
+	for {
+		valueType := def.AsArray().ValueType
+		if valueType.IsRef() {
+			if _, seen := visited[valueType.Ref.String()]; seen {
+				return false
+			}
+			visited[valueType.Ref.String()] = struct{}{}
+		}
+
+		valueType = context.ResolveRefs(valueType)
+		if !valueType.IsArray() {
+			return valueType.IsAnyOf(kinds...)
+		}
+
+		def = valueType
+	}
 }
 
 func (context *Context) IsMapOfKinds(def ast.Type, kinds ...ast.Kind) bool {
@@ -86,12 +99,25 @@ func (context *Context) IsMapOfKinds(def ast.Type, kinds ...ast.Kind) bool {
 		return false
 	}
 
-	valueType := context.ResolveRefs(def.AsMap().ValueType)
-	if valueType.IsMap() {
-		return context.IsMapOfKinds(valueType, kinds...)
-	}
+	// references already followed: types can be recursive (`M: [string]: M`)
+	visited := make(map[string]struct{})
 
-	return valueType.IsAnyOf(kinds...)
+	for {
+		valueType := def.AsMap().ValueType
+		if valueType.IsRef() {
+			if _, seen := visited[valueType.Ref.String()]; seen {
+				return false
+			}
+			visited[valueType.Ref.String()] = struct{}{}
+		}
+
+		valueType = context.ResolveRefs(valueType)
+		if !valueType.IsMap() {
+			return valueType.IsAnyOf(kinds...)
+		}
+
+		def = valueType
+	}
 }
 
 func (context *Context) ResolveToComposableSlot(def ast.Type) (ast.Type, bool) {
